@@ -195,4 +195,61 @@ theorem subjectEncode_toSubject (values : Values) :
 
 end Convert
 
+/-! ### issuance (`Model/Issuance.lean`) -/
+section Issuance
+open AnonModel.Issuance AnonModel.Verifier
+
+/-- no key with two different values -/
+def Functional (a : List (String × String)) : Prop :=
+  ∀ k v v', (k, v) ∈ a → (k, v') ∈ a → v = v'
+
+theorem functional_of_nodup_keys {a : List (String × String)} (h : (a.map Prod.fst).Nodup) :
+    Functional a := by
+  intro k v v' h1 h2
+  have e1 := lookup_of_mem_nodup (m := a) (by simpa [keys] using h) h1
+  have e2 := lookup_of_mem_nodup (m := a) (by simpa [keys] using h) h2
+  rw [e1] at e2; exact Option.some.inj e2
+
+theorem lookup_of_mem_functional {a : List (String × String)} (hf : Functional a) {k v : String}
+    (h : (k, v) ∈ a) : a.lookup k = some v := by
+  obtain ⟨v', hv'⟩ := lookup_of_mem_keys (m := a) (mem_keys.mpr ⟨v, h⟩)
+  rw [hv', hf k v v' h (mem_of_lookup hv')]
+
+theorem sameAttrs_iff_lookup (a b : List (String × String)) :
+    sameAttrs a b = true ↔
+      (∀ kv ∈ a, b.lookup kv.1 = some kv.2) ∧ (∀ kv ∈ b, a.lookup kv.1 = some kv.2) := by
+  simp [sameAttrs, List.all_eq_true]
+
+/-- `sameAttrs` says: the two lists have the same entries, and no key has two values -/
+theorem sameAttrs_iff (a b : List (String × String)) :
+    sameAttrs a b = true ↔ (∀ kv, kv ∈ a ↔ kv ∈ b) ∧ Functional a := by
+  rw [sameAttrs_iff_lookup]
+  constructor
+  · rintro ⟨h1, h2⟩
+    have hab : ∀ kv, kv ∈ a → kv ∈ b := fun kv h => mem_of_lookup (h1 kv h)
+    have hba : ∀ kv, kv ∈ b → kv ∈ a := fun kv h => mem_of_lookup (h2 kv h)
+    refine ⟨fun kv => ⟨hab kv, hba kv⟩, ?_⟩
+    intro k v v' hv hv'
+    have e1 := h1 _ hv
+    have e2 := h1 _ hv'
+    simp only at e1 e2
+    rw [e1] at e2; exact Option.some.inj e2
+  · rintro ⟨hs, hf⟩
+    have hfb : Functional b := fun k v v' h1 h2 => hf k v v' ((hs _).mpr h1) ((hs _).mpr h2)
+    exact ⟨fun kv h => lookup_of_mem_functional hfb ((hs kv).mp h),
+      fun kv h => lookup_of_mem_functional hf ((hs kv).mpr h)⟩
+
+theorem normAttrs_keys (values : List (String × String)) :
+    (normAttrs values).map Prod.fst = values.map (fun nv => Names.commonView nv.1) := by
+  simp [normAttrs, List.map_map, Function.comp_def]
+
+theorem mem_normAttrs {values : List (String × String)} {kv : String × String} :
+    kv ∈ normAttrs values ↔ ∃ nv ∈ values, kv = (Names.commonView nv.1, nv.2) := by
+  simp only [normAttrs, List.mem_map]
+  constructor
+  · rintro ⟨nv, h, rfl⟩; exact ⟨nv, h, rfl⟩
+  · rintro ⟨nv, h, rfl⟩; exact ⟨nv, h, rfl⟩
+
+end Issuance
+
 end AnonModel.Flows
